@@ -602,6 +602,43 @@ def run(ctx):
                 up = _upvar_env(prog, b)
             args = [_thru_getters(prog, re.sub(r"\barg1\.\d+\b", lambda m: up.get(m.group(0), m.group(0)), expr(bi, a))) for a in t["args"]]
             callers.setdefault(_root_of(prog, b), []).append((b.path, args))
+    # A site left in a private helper that several functions share (prog.inlined expands single-caller helpers only) belongs to each of the
+    # functions that call the helper: the helper is expanded into every caller (multi=True) and the site is judged there, with the argument
+    # terms in the caller's vocabulary.  Repeated for helpers of helpers; a helper that is `pub`, a trait method, has no caller or is not
+    # expanded at some call site stays an unaudited caller (fail closed).
+    from .. import inline as _inline
+    expected_roots = {PC, "<view::text::Text as view::View>::layout", "view::text::<impl view::View for str>::layout"}
+    absorbed, seen_sites = set(), set()
+    for _round in range(_inline.MAX_DEPTH):
+        moved = False
+        for hp in sorted(p_ for p_ in callers if p_ not in expected_roots):
+            hb = prog.body(hp)
+            if hb is None or hb.kind not in ("Fn", "AssocFn") or hb.impl_trait or (hb.j.get("vis") or "") == "Public":
+                continue
+            users = sorted(_inline.callers_of(prog, hp))
+            views = []
+            for c in users:
+                cb = prog.body(c)
+                ci = prog.inlined(c, multi=True) if cb is not None and len(prog.by_path[c]) == 1 else None
+                if ci is None or not any(blk["term"].get("inl_call") == hp for blk in ci.blocks) \
+                        or any(call_matches(t, "^" + re.escape(hp) + "$") for bb, t in ci.calls() if not ci.blocks[bb]["cleanup"]):
+                    views = None
+                    break
+                views.append((cb, ci))
+            if not views:
+                continue
+            absorbed.add(hp)
+            del callers[hp]
+            moved = True
+            for cb, ci in views:
+                up = _upvar_env(prog, cb)
+                for bb, t in ci.calls():
+                    if call_matches(t, r"^render::Cell::layout$") and ci.blocks[bb].get("inl_from") in absorbed and (cb.path, bb) not in seen_sites:
+                        seen_sites.add((cb.path, bb))
+                        args = [_thru_getters(prog, re.sub(r"\barg1\.\d+\b", lambda m: up.get(m.group(0), m.group(0)), expr(ci, a))) for a in t["args"]]
+                        callers.setdefault(_root_of(prog, cb), []).append((ci.blocks[bb]["inl_from"], args))
+        if not moved:
+            break
     exp = {
         PC: {"width": r"^TerminalWriter::size\(arg1\)\.width$", "wraps": r"^arg1\.wraps$"},
         "<view::text::Text as view::View>::layout": {"width": r"^arg3\.max\.width$", "wraps": r"^arg1\.wraps$"},
